@@ -442,7 +442,7 @@ _NM = "nonmatching(" + _PGS + ", " + _HV + ", {}, 0)"
 _DIFF = "twobytwo_differs(" + _PGS + ", " + _HV + ", {}, {}, 0)"
 contract(
     "ufo2ft.preProcessor:TTFInterpolatablePreProcessor.check_for_nonmatching_components",
-    portfolio=["z3-5.1", "z3-5.1/ematch"],  # assert.hint@L546: solver order only (notes/SLOW.txt round 4)
+    portfolio=["z3-5.1/ematch"],  # assert.hint@L546: solver order only (default z3 needs ~3 s or gives up; e-matching alone ~2 s)
     props=["C09"],
     params={"self": Ref("SXTTFPre"), "needs_decomposition": Set(STR)},
     requires=[f"len({_PGS}) > 0"],  # set.union(*[...]) needs at least one glyph set (BaseInterpolatablePreProcessor is built from >= 1 UFO)
